@@ -84,7 +84,7 @@ def fam_tolerance(rnd, n):
     for i in range(n):
         ns = rnd.choice([3, 4, 4, 5, 6])
         conc = rnd.choice([0, -1, 1, 2, 2, 3])      # 0: Concurrency unset, which means 1; a negative value is "less than one" too
-        tol = rnd.choice([-1, -2, 0, 0, 1, 2])      # any negative value allows every failure
+        tol = rnd.choice([-1, -2, 0, 0, 1, 2, 9223372036854775807])      # any negative value allows every failure; so does a huge one
         sh = shape([blk([rnd.choice([1, 1, 2]) for _ in range(ns)], conc, tol, g=rnd.choice([{}, {"post": 1, "deferred": 1}, {"deferred": 1}]))],
                    pg=rnd.choice([{}, {"deferred": 1}, {"post": 1}]), retries=rnd.choice([0, 0, 1]))
         out, lat = {}, {}
@@ -138,6 +138,9 @@ def fam_retry(rnd, n, overrun=True, checks=True):
         for r, s2, lat in [(1, ["lateok", "ok"], [0, 60000]), (2, ["lateok", "tr", "ok"], [0, 50000, 100]), (1, ["lateok", "perm"], [0, 60000])]:
             sh = shape([blk([2])], retries=r)
             res.append(scn(sh, "free", {"b1.s1.a1": s2}, lat={"b1.s1.a1": lat}, tag="retry-late", timeoutms=100, waitms=6000))
+    # a plugin whose RetryPolicy declares MaxAttempts: the action's Retries still bound the invocations
+    for r, s in ((1, ["tr", "tr", "tr", "tr"]), (0, ["tr", "ok"]), (2, ["tr", "tr", "tr", "ok"])):
+        res.append(scn(shape([blk([1])], retries=r), "free", {"b1.s1.a1": s}, tag="retry-maxattempts", maxattplugin=True))
     # Retries below zero: "less than no retry" is no retry - one invocation, recorded, final
     for s in (["ok"], ["perm"], ["tr"], ["wrongtype"]):
         res.append(scn(shape([blk([2])], retries=0), "free", {"b1.s1.a1": s, "b1.s1.a2": s}, tag="retry-negative", negretries=True))
@@ -208,7 +211,7 @@ def fam_cont(rnd, n):
             out[rnd.choice(seq_actions(sh))] = ["perm"]
         mode = "quiet" if i % 2 == 0 else "free"
         # every fifth plan leaves Checks.Delay unset: the continuous checks then run back to back
-        cd = -1 if i % 5 == 4 and mode == "free" else rnd.choice([50, 150, 400])
+        cd = (-1 if i % 10 == 4 else -2) if i % 5 == 4 and mode == "free" else rnd.choice([50, 150, 400])
         if cd < 0:
             # ... and answer at once, so that the loop spends its time in the engine, not in the plugin
             for who in ("p", "b1"):
@@ -295,7 +298,8 @@ def fam_cont_keeps(rnd, n):
         pg = {"cont": 1} if lvl == "p" else {}
         bg = {"cont": 1} if lvl == "b1" else {}
         sh = shape([blk([1, 1], conc=rnd.choice([1, 2]), g=bg)], pg=pg)
-        res.append(scn(sh, "free", {}, hold=["b1.s1.a1"], holduntil={"%s.cont.a1" % lvl: rnd.choice([4, 6, 9])}, tag="cont-keeps", contdelay=100, waitms=9000))
+        res.append(scn(sh, "free", {}, hold=["b1.s1.a1"], holduntil={"%s.cont.a1" % lvl: rnd.choice([4, 6, 9])}, tag="cont-keeps",
+                       contdelay=(100, 100, -2, -1)[i % 4], waitms=9000))      # -1: Delay unset, -2: a negative Delay (both mean "back to back")
     # the plan's continuous checks go on while the SECOND block executes: an action of block 2 is held until the plan's
     # check has been invoked far more often than block 1 gave it time for
     for i in range(max(1, n // 2)):
